@@ -100,6 +100,9 @@ type Replay struct {
 	Original  map[string][]uint32 `json:"original_tapes,omitempty"`
 	Trace     []string            `json:"trace,omitempty"`
 	Params    map[string]string   `json:"params,omitempty"`
+	// BatchFrom >= 0: the violation depends on state left in the process by the preceding runs of its
+	// batch (runs BatchFrom..Run executed in one process, in order); replay re-executes that range.
+	BatchFrom *uint64 `json:"batch_from,omitempty"`
 }
 
 type Finding struct {
@@ -366,6 +369,43 @@ func replayOnce(bin string, rp *Replay, tmp string, timeoutS int) (*Record, erro
 	return &recs[0], nil
 }
 
+// replayRange re-executes runs lo..hi (inclusive) of a seed in one fresh process and returns the record of run hi.
+func replayRange(bin string, seed, lo, hi uint64, tier string, params map[string]string, tmp string, timeoutS int) (*Record, error) {
+	of := tmp + ".range.jsonl"
+	defer os.Remove(of)
+	pj, _ := json.Marshal(params)
+	cmd := exec.Command(bin, "-test.run", "^TestVerif$", "-test.timeout", strconv.Itoa(timeoutS+30)+"s", "-test.count", "1")
+	cmd.Dir = filepath.Dir(bin)
+	cmd.Env = append(os.Environ(), "VERIF_SEED="+strconv.FormatUint(seed, 10), "VERIF_RUN_LO="+strconv.FormatUint(lo, 10), "VERIF_RUN_HI="+strconv.FormatUint(hi+1, 10),
+		"VERIF_OUT="+of, "VERIF_TIER="+tier, "VERIF_PARAMS="+string(pj), "GOMAXPROCS=2", "VERIF_REPLAY=", "VERIF_BUDGET_S=0")
+	var buf bytes.Buffer
+	cmd.Stdout, cmd.Stderr = &buf, &buf
+	if err := cmd.Start(); err != nil {
+		return nil, err
+	}
+	done := make(chan error, 1)
+	go func() { done <- cmd.Wait() }()
+	select {
+	case err := <-done:
+		if err != nil {
+			return nil, fmt.Errorf("range replay process: %v", err)
+		}
+	case <-time.After(time.Duration(timeoutS) * time.Second):
+		cmd.Process.Kill()
+		<-done
+		return nil, fmt.Errorf("range replay timed out")
+	}
+	recs, err := readRecords(of)
+	if err != nil || len(recs) == 0 {
+		return nil, fmt.Errorf("range replay produced %d records (%v)", len(recs), err)
+	}
+	last := recs[len(recs)-1]
+	if last.Run != hi {
+		return nil, fmt.Errorf("range replay ended at run %d, expected %d", last.Run, hi)
+	}
+	return &last, nil
+}
+
 func hasSig(r *Record, sig string) (bool, string, []string) {
 	for _, v := range r.Outcome.Violations {
 		if v.Sig == sig {
@@ -543,7 +583,12 @@ func cmdReplay(args []string) int {
 	if !*keep {
 		defer os.RemoveAll(work)
 	}
-	rec, err := replayOnce(bin, &rp, filepath.Join(work, "rp"), 300)
+	var rec *Record
+	if rp.BatchFrom != nil {
+		rec, err = replayRange(bin, rp.Seed, *rp.BatchFrom, rp.Run, rp.Tier, rp.Params, filepath.Join(work, "rp"), 900)
+	} else {
+		rec, err = replayOnce(bin, &rp, filepath.Join(work, "rp"), 300)
+	}
 	if err != nil {
 		fmt.Fprintf(os.Stderr, "verif: %v\n", err)
 		os.RemoveAll(work)
@@ -789,7 +834,25 @@ func cmdCheck(args []string) int {
 			return 2
 		}
 		if ok, _, _ := hasSig(rec, sig); !ok {
-			fmt.Fprintf(os.Stderr, "verif: run %d reported %q but its replay does not (harness nondeterminism) — no verdict\n", best.Run, sig)
+			// not reproducible from its tape alone: does it depend on what the preceding runs of its batch left behind
+			// in the process (state shared between executions is itself what some properties forbid)?
+			lo := (best.Run / uint64(tc.Batch)) * uint64(tc.Batch)
+			rrec, rerr := replayRange(bin, best.Seed, lo, best.Run, *tier, tc.Params, tmp, 900)
+			if rerr == nil {
+				if ok2, d2, tr2 := hasSig(rrec, sig); ok2 {
+					base.BatchFrom = &lo
+					base.Detail, base.Trace = d2, tr2
+					path := filepath.Join(verifDir, "replays", fmt.Sprintf("%s-%d-%d-%s.json", id, best.Seed, best.Run, sigHash(sig)))
+					b, _ := json.MarshalIndent(base, "", " ")
+					os.WriteFile(path, b, 0o644)
+					fmt.Printf("violation: %s\n  %s\n  seen in %d of %d runs; reproduces only after runs %d..%d executed in the same process (state carried from one execution to the next); not minimised\n",
+						sig, firstLines(base.Detail, 12), len(bySig[sig]), len(recs), lo, best.Run-1)
+					fmt.Printf("VIOLATION property=%s replay=%s\n", repID, path)
+					exit = 1
+					continue
+				}
+			}
+			fmt.Fprintf(os.Stderr, "verif: run %d reported %q but neither its replay nor the replay of its batch prefix does (harness nondeterminism) — no verdict\n", best.Run, sig)
 			os.RemoveAll(work)
 			return 2
 		}
